@@ -40,7 +40,7 @@ def units(tier):
 def meta(tier):
     return {
         "rule": f"every cyclic class topology over <= {NMAX[tier]} classes (1-2 links per class, <= n+1 links, edge kinds {cycles.KINDS}, non-root relabelings identified) "
-        f"x both module styles (from __future__ import annotations / eager with string back references) x every root form {cycles.ROOT_FORMS} of every class "
+        f"x module styles (from __future__ import annotations / eager with string back references / all classes nested in an outer class) x every root form {cycles.ROOT_FORMS} of every class "
         f"x depths {DEPTHS[tier][0]}..{DEPTHS[tier][-1]} (payloads given as text so an unconverted level is visible), plus 4 recursive-alias programs; "
         "oracle: build within the wall limit; unmarshal(T, wire) same-as the value built directly with the classes; marshal gives the all-plain wire; "
         "round trip; both build orders agree; non-trivial = the call returned; distinct by (topology, style, root, depth, outcome)",
@@ -56,7 +56,7 @@ _modn = [0]
 def load(src):
     _modn[0] += 1
     name = f"tlg_c07_{_modn[0]}"
-    return name, prelude.mkmod(name, src).__dict__
+    return name, cycles.view(prelude.mkmod(name, src).__dict__)
 
 
 def judge_root(topo, style, ns, form, node, depths, res, case, order="mu"):
@@ -121,8 +121,10 @@ def judge_root(topo, style, ns, form, node, depths, res, case, order="mu"):
 def run_topo(n, idx, tier, res, only=None):
     topo = topos(n)[idx]
     depths = DEPTHS[tier]
-    for style in ("future", "eager"):
-        src = topo.source(style == "future")
+    for style in ("future", "eager", "nested"):
+        if style == "nested" and n > 2:
+            continue
+        src = topo.source(style == "future", nested=(style == "nested"))
         for node in range(n):
             for form in cycles.ROOT_FORMS:
                 if only is not None and (style, node, form) != tuple(only):
